@@ -391,6 +391,8 @@ MUTANTS += [
          old="            child.A_IR = parent.A_IR @ A_RpJ @ A_JRc", new="            child.A_IR = parent.A_IR @ A_JRc @ A_RpJ", expect="C28.R8"),
 ]
 NEUTRAL = [
+    dict(id="c28-n-r8", what="child orientation composed through a named joint rotation", file=URDF,
+         old="            child.A_IR = parent.A_IR @ A_RpJ @ A_JRc", new="            A_IJ = parent.A_IR @ A_RpJ\n            child.A_IR = A_IJ @ A_JRc"),
     dict(id="c28-n1", canary=True, what="revolute joint: axis normalised in place by axis_angle_to_A, then used for the angular velocity", file=URDF,
          edits=[(URDF, "        A_JRc = axis_angle_to_A(e1, angle)\n", "        A_JRc = axis_angle_to_A(axis, angle)\n"), (URDF, "        J_omega_JRc = angle_dot * e1\n", "        J_omega_JRc = angle_dot * axis\n")]),
     dict(id="c28-n2", what="prismatic joint: unit direction through a helper-free normalisation of a copy", file=URDF,
